@@ -24,7 +24,8 @@ scripted measured rate into the survey report (the real sensors are C05's subjec
 
 A *history* is a JSON-able dict:
   {"nsites": n, "methods": [mparams...], "fu": {"crews": c, "workday": h, "times": [minutes per site]},
-   "days": [ {"screen": [[method, site, num, den], ...], "tag": [site, ...]}, ... ]}
+   "days": [ {"screen": [[method, site, num, den], ...], "tag": [site, ...]}, ... ],
+   optional: "start": [y,m,d], "names": [screening method names], "fu_name", "ids": [site id strings]}
 mparams = {"stationary","rd","delay","prop":[p,q],"thrFirst","thr":[p,q],"inst":[p,q]|None,
            "filter","sw","lw","sthr":[p,q],"lthr":[p,q]}
 All rates / thresholds are rationals p/q handed to the real code as the double p/q; the grids are
@@ -54,14 +55,6 @@ SIM_START = date(2022, 1, 1)
 MP = pdc.Method_Params
 
 
-def day(i):
-    return SIM_START + timedelta(days=i)
-
-
-def d2i(d):
-    return None if d is None else (d - SIM_START).days
-
-
 def frac(x):
     """the unique rational with denominator <= 10^6 whose correctly rounded double is x"""
     if isinstance(x, int):
@@ -79,11 +72,11 @@ def fs(fr):
 
 
 class StubSite:
-    def __init__(self, idx, names, fu_time):
-        self._idx = idx
-        self._id = "s%d" % idx
-        self._latest = SIM_START
+    def __init__(self, sid, names, fu_time, fu_name="FU", start=SIM_START):
+        self._id = sid
+        self._latest = start
         self._fu_time = fu_time
+        self._fu_name = fu_name
         self._survey_frequencies = {n: None for n in names}
         self._deployment_years = {n: [] for n in names}
         self._deployment_months = {n: list(range(1, 13)) for n in names}
@@ -96,7 +89,7 @@ class StubSite:
         return 1
 
     def get_method_survey_time(self, name):
-        return self._fu_time if name == "FU" else 10
+        return self._fu_time if name == self._fu_name else 10
 
     def get_survey_cost(self, name):
         return 0
@@ -131,7 +124,7 @@ class NullSensor:
         return False
 
 
-def _base_props(deployment, is_fu, rd, crews, workday):
+def _base_props(deployment, is_fu, rd, crews, workday, travel=0):
     return {
         MP.DEPLOYMENT_TYPE: deployment,
         MP.MEASUREMENT_SCALE: "component" if is_fu else "site",
@@ -141,18 +134,18 @@ def _base_props(deployment, is_fu, rd, crews, workday):
         MP.CONSIDER_DAYLIGHT: False,
         MP.WEATHER_ENVS: {MP.TEMP: [-100, 100], MP.WIND: [0, 100], MP.PRECIP: [0, 100]},
         MP.IS_FOLLOW_UP: is_fu,
-        MP.T_BW_SITES: {pdc.Common_Params.VAL: 0},
+        MP.T_BW_SITES: {pdc.Common_Params.VAL: travel},
         MP.REPORTING_DELAY: rd,
         MP.N_CREWS: crews,
         MP.COST: {MP.UPFRONT: 0, MP.PER_DAY: 0, MP.PER_SITE: 0},
     }
 
 
-def screening_props(mp):
+def screening_props(mp, fu_name="FU"):
     pr = _base_props("stationary" if mp["stationary"] else "mobile", False, mp["rd"], 1, 24)
     inst = mp.get("inst")
     pr[MP.FOLLOW_UP] = {
-        MP.PREFERRED_METHOD: "FU",
+        MP.PREFERRED_METHOD: fu_name,
         MP.INTERACTION_PRIORITY: "threshold" if mp["thrFirst"] else "proportion",
         MP.DELAY: mp["delay"],
         MP.PROPORTION: float(Fraction(*mp["prop"])),
@@ -169,28 +162,41 @@ def screening_props(mp):
 
 
 class World:
-    """the real objects of one program: k screening methods bound to one follow-up method"""
+    """the real objects of one program: k screening methods bound to one follow-up method.
+    Optional keys of the history: "start" [y,m,d] (first simulated day), "names" (screening method
+    names), "fu_name", "ids" (site id strings, in site order), fu["travel"] (time between sites).
+    Everything reported (logs, snapshots, dump) uses site *indices* and the labels M<i> / FU, whatever
+    the real names are; dates are reported as day numbers relative to the start, computed here from
+    the real `date` objects."""
 
-    def __init__(self, hist):
+    def __init__(self, hist, props=None):
         self.hist = hist
         n = hist["nsites"]
-        self.mnames = ["M%d" % i for i in range(len(hist["methods"]))]
-        names = self.mnames + ["FU"]
+        k = len(hist["methods"])
+        self.start = date(*hist["start"]) if hist.get("start") else SIM_START
+        self.labels = ["M%d" % i for i in range(k)]
+        self.mnames = list(hist.get("names") or self.labels)
+        self.fu_name = hist.get("fu_name") or "FU"
+        self.sid = list(hist.get("ids") or ["s%d" % i for i in range(n)])
+        self.idx = {sid: i for i, sid in enumerate(self.sid)}
+        names = self.mnames + [self.fu_name]
         fu = hist["fu"]
-        self.sites = [StubSite(i, names, fu["times"][i]) for i in range(n)]
-        end = SIM_START + timedelta(days=len(hist["days"]) + 5)
+        self.sites = [StubSite(self.sid[i], names, fu["times"][i], self.fu_name, self.start) for i in range(n)]
+        end = self.start + timedelta(days=len(hist["days"]) + 5)
+        self.props = props if props is not None else [screening_props(mp, self.fu_name) for mp in hist["methods"]]
         sink = io.StringIO()
         with contextlib.redirect_stdout(sink):
             # program.py: follow-up methods and their schedules are created first
             self.fu_method = ComponentLevelMethod(
-                "FU", _base_props("mobile", True, 0, fu["crews"], fu["workday"]), False, self.sites, "")
+                self.fu_name, _base_props("mobile", True, 0, fu["crews"], fu["workday"], fu.get("travel", 0)),
+                False, self.sites, "")
             self.cap = self.fu_method.estimate_average_daily_surveys()
             self.fu_schedule = FollowUpMobileSchedule(
-                "FU", self.sites, SIM_START, end, self.cap, self.fu_method.get_crew_count())
+                self.fu_name, self.sites, self.start, end, self.cap, self.fu_method.get_crew_count())
             self.fu_method._sensor = NullSensor()
             self.methods = []
-            for nm, mp in zip(self.mnames, hist["methods"]):
-                m = SiteLevelMethod(nm, screening_props(mp), False, sites=self.sites,
+            for nm, pr in zip(self.mnames, self.props):
+                m = SiteLevelMethod(nm, pr, False, sites=self.sites,
                                     follow_up_schedule=self.fu_schedule, input_dir="")
                 m._sensor = ScriptedSensor()
                 self.methods.append(m)
@@ -200,10 +206,19 @@ class World:
         self.decisions = []   # every call of _filter_candidates_by_proportion (observation only)
         self.ctx = "-"        # "decision" while update_candidates_for_flags runs
         self.who = "-"
+        self.crash = None
+        self.releases = []
+        self.snaps = []
         self._wrap_queue_puts()
         for i, m in enumerate(self.methods):
             self._wrap_method(i, m)
         self.today = None
+
+    def day(self, i):
+        return self.start + timedelta(days=i)
+
+    def d2i(self, d):
+        return None if d is None else (d - self.start).days
 
     # -- observation only: log every insertion into the follow-up queue ---------------------
     def _wrap_queue_puts(self):
@@ -217,29 +232,44 @@ class World:
                 if world._nest == 0 and world.who.startswith("M") and id(plan) not in world.creator:
                     world.creator[id(plan)] = (world.who, plan)      # keeps the plan alive: ids stay unique
                 if world._nest == 0:     # entry points may delegate to each other: log the outer call only
+                    si = world.idx[plan.site_id]
                     world.queue_log.append({
-                        "day": world.today, "site": int(plan.site_id[1:]), "entry": _cls,
+                        "day": world.today, "site": si, "entry": _cls,
                         "rate": frac(plan.rate_at_site), "who": world.who, "ctx": world.ctx,
-                        "latest": d2i(plan._latest_detection_date),
+                        "latest": world.d2i(plan._latest_detection_date),
                         "rates": [frac(x) for x in plan._detected_rates],
                         "long": frac(getattr(plan, "rate_at_site_long", 0)),
                         "windows": (getattr(plan, "_small_window", None), getattr(plan, "_long_window", None)),
-                        "tag": d2i(plan._site.get_latest_tagging_survey_date()),
-                        "was_queued": bool(world.pre_inq.get(plan.site_id, False)),
-                        "was_pooled": bool(world.pre_inpool.get(plan.site_id, False)),
+                        "tag": world.d2i(plan._site.get_latest_tagging_survey_date()),
+                        # membership at the start of this update, read from the CONTENT of queue and pool
+                        "was_queued": world.pre_queue_count.get(si, 0) > 0,
+                        "was_pooled": si in world.pre_pool_sites,
+                        "new_request": None,   # filled below: did the put add an entry for the site?
+                        # the code's own flags at the same moment (only compared with the content)
+                        "flag_queued": bool(world.pre_inq.get(plan.site_id, False)),
+                        "flag_pooled": bool(world.pre_inpool.get(plan.site_id, False)),
                         "in_progress": bool(plan._active_survey_report is not None
                                             and plan._active_survey_report.survey_in_progress),
                     })
+                outer = world._nest == 0
                 world._nest += 1
                 try:
                     return _orig(plan)
                 finally:
                     world._nest -= 1
+                    if outer:
+                        # a new request = the site has more queue entries than when this update began
+                        # (a re-insertion first takes the old entry out); read from the queue content
+                        now = sum(1 for e in sched._survey_queue.queue if e[2].site_id == plan.site_id)
+                        si = world.idx[plan.site_id]
+                        world.queue_log[-1]["new_request"] = now > world.pre_queue_count.get(si, 0)
 
             setattr(sched, attr, wrapped)
         self._nest = 0
         self.pre_inq = {}
         self.pre_inpool = {}
+        self.pre_queue_count = {}
+        self.pre_pool_sites = set()
         self.creator = {}
 
     def _wrap_method(self, i, m):
@@ -255,11 +285,11 @@ class World:
                 world.ctx = "-"
 
         def flt():
-            before = [(int(p.site_id[1:]), frac(p.rate_at_site)) for p in m._candidates_for_flags]
+            before = [(world.idx[p.site_id], frac(p.rate_at_site)) for p in m._candidates_for_flags]
             rec = {"day": world.today, "method": i, "pool": before, "count": m._detection_count,
-                   "first": d2i(m._first_candidate_date)}
+                   "first": world.d2i(m._first_candidate_date)}
             out = orig_flt()
-            rec["kept"] = [(int(p.site_id[1:]), frac(p.rate_at_site)) for p in m._candidates_for_flags]
+            rec["kept"] = [(world.idx[p.site_id], frac(p.rate_at_site)) for p in m._candidates_for_flags]
             world.decisions.append(rec)
             return out
 
@@ -271,12 +301,16 @@ class World:
         """one day of screening method i: the real deploy_crews on a work plan of the screened
         sites (files the detection records), then the real update(current_date)"""
         m = self.methods[i]
-        cur = day(dn)
+        cur = self.day(dn)
         self.today = dn
-        self.who = self.mnames[i]
+        self.who = self.labels[i]
         self.pre_inq = dict(self.fu_schedule.get_site_id_queue_list())
         self.pre_inpool = dict(m._site_IDs_in_consideration_for_flag)
-        m._sensor.rates = {"s%d" % s: float(Fraction(p, q)) for (s, p, q) in screens}
+        self.pre_queue_count = {}
+        for e in self.fu_schedule._survey_queue.queue:
+            self.pre_queue_count[self.idx[e[2].site_id]] = self.pre_queue_count.get(self.idx[e[2].site_id], 0) + 1
+        self.pre_pool_sites = {self.idx[p.site_id] for p in m._candidates_for_flags}
+        m._sensor.rates = {self.sid[s]: float(Fraction(p, q)) for (s, p, q) in screens}
         if screens:
             wp = Workplan([SurveyPlanner(self.sites[s]) for (s, p, q) in screens], cur)
             m.deploy_crews(wp, None, None)
@@ -286,47 +320,50 @@ class World:
 
     def tagging_survey(self, s, dn):
         """another (routine) tagging method completed a survey of the site"""
-        self.sites[s].set_latest_tagging_survey_date(day(dn))
+        self.sites[s].set_latest_tagging_survey_date(self.day(dn))
 
     def follow_up_day(self, dn):
         """the follow-up method's day: real get_workplan, deploy_crews, schedule.update"""
-        cur = day(dn)
+        cur = self.day(dn)
         self.today = dn
         self.who = "FU"
         self.pre_inq = dict(self.fu_schedule.get_site_id_queue_list())
         queue_before = self.queue_in_pop_order()
+        self.pre_queue_count = {}
+        for (_, s_, _) in queue_before:
+            self.pre_queue_count[s_] = self.pre_queue_count.get(s_, 0) + 1
         wp = self.fu_schedule.get_workplan(cur)
         plans = list(wp.site_survey_planners.values())
         planned = [p.site_id for p in plans]
-        pre = [(d2i(p._latest_detection_date), d2i(p._site.get_latest_tagging_survey_date()),
-                bool(self.pre_inq.get(p.site_id, False))) for p in plans]
+        pre = [(self.d2i(p._latest_detection_date), self.d2i(p._site.get_latest_tagging_survey_date()))
+               for p in plans]
         self.fu_method.deploy_crews(wp, None, None)
         reports, _ = wp.get_reports()
         outcomes = []
-        for sid, (latest, tag_before, inq) in zip(planned, pre):
+        for sid, (latest, tag_before) in zip(planned, pre):
             r = reports[sid]
             o = "c" if r.survey_complete else ("p" if r.survey_in_progress else "u")
-            outcomes.append((sid, o))
-            self.visits.append({"day": dn, "site": int(sid[1:]), "outcome": o, "latest": latest,
-                                "tag_before": tag_before, "was_queued": inq,
+            outcomes.append((self.idx[sid], o))
+            self.visits.append({"day": dn, "site": self.idx[sid], "outcome": o, "latest": latest,
+                                "tag_before": tag_before, "was_queued": self.pre_queue_count.get(self.idx[sid], 0) > 0,
                                 "surveyed_today": r.time_surveyed_current_day})
-        self.fu_days.append({"day": dn, "queue_before": queue_before, "planned": [int(x[1:]) for x in planned]})
+        self.fu_days.append({"day": dn, "queue_before": queue_before, "planned": [self.idx[x] for x in planned]})
         self.fu_schedule.update(wp, cur, True)
         self.fu_method.update(cur)
         self.who = "-"
         return outcomes
 
-    # -- canonical state ------------------------------------------------------------------------
+    # -- canonical state (site indices) -------------------------------------------------------------
     def queue_in_pop_order(self):
         """content of the follow-up queue in pop order, taken from a copy of the heap"""
         heap = sorted(self.fu_schedule._survey_queue.queue, key=lambda e: (e[0], e[1]))
-        return [(e[0][0], e[2].site_id, frac(e[2].rate_at_site)) for e in heap]
+        return [(e[0][0], self.idx[e[2].site_id], frac(e[2].rate_at_site)) for e in heap]
 
     def method_state(self, i):
         m = self.methods[i]
-        pool = [(p.site_id, frac(p.rate_at_site)) for p in m._candidates_for_flags]
+        pool = [(self.idx[p.site_id], frac(p.rate_at_site)) for p in m._candidates_for_flags]
         inpool = [1 if m._site_IDs_in_consideration_for_flag.get(s.get_id(), False) else 0 for s in self.sites]
-        return pool, inpool, d2i(m._first_candidate_date), m._detection_count
+        return pool, inpool, self.d2i(m._first_candidate_date), m._detection_count
 
     def queue_creators(self):
         """for every queue entry in pop order: the screening method that first queued that plan object"""
@@ -339,11 +376,11 @@ class World:
         out = []
         dec_first = {(d["day"], d["method"]): d["first"] for d in self.decisions}
         for e in self.queue_log:
-            if e["who"] != self.mnames[i]:
+            if e["who"] != self.labels[i]:
                 continue
             if e["ctx"] == "decision":
                 route, first = "pool", dec_first.get((e["day"], i))
-            elif e["was_pooled"] or not e["was_queued"]:
+            elif e["new_request"]:
                 route, first = "instant", e["day"]
             else:
                 continue
@@ -362,28 +399,26 @@ class World:
 
     def site_plans(self, i, s):
         """the detected-rate lists of the plans of site s in method i's pool and in the queue"""
-        sid = "s%d" % s
+        sid = self.sid[s]
         m = self.methods[i]
         pool = [tuple(frac(x) for x in p._detected_rates) for p in m._candidates_for_flags if p.site_id == sid]
         queue = [tuple(frac(x) for x in e[2]._detected_rates) for e in self.fu_schedule._survey_queue.queue
                  if e[2].site_id == sid]
-        return {"pool": pool, "queue": sorted(queue), "count": m._detection_count,
-                "inpool": bool(m._site_IDs_in_consideration_for_flag.get(sid, False)),
-                "inq": bool(self.fu_schedule.get_site_id_queue_list()[sid])}
+        return {"pool": pool, "queue": sorted(queue), "count": m._detection_count}
 
     def dump(self):
         parts = []
         for i in range(len(self.methods)):
             pool, inpool, fc, cnt = self.method_state(i)
             parts.append("M%d pool=[%s] inPool=%s first=%s count=%d" % (
-                i, ",".join("%s:%s" % (s[1:], fs(r)) for s, r in pool),
+                i, ",".join("%d:%s" % (s, fs(r)) for s, r in pool),
                 "".join(map(str, inpool)), "-" if fc is None else fc, cnt))
         q = self.queue_in_pop_order()
         inq = self.fu_schedule.get_site_id_queue_list()
         parts.append("queue=[%s] inQueue=%s tag=[%s]" % (
-            ",".join("%d:%s:%s" % (c, s[1:], fs(r)) for c, s, r in q),
+            ",".join("%d:%d:%s" % (c, s, fs(r)) for c, s, r in q),
             "".join("1" if inq[s.get_id()] else "0" for s in self.sites),
-            ",".join(str(d2i(s._latest)) for s in self.sites)))
+            ",".join(str(self.d2i(s._latest)) for s in self.sites)))
         return " | ".join(parts)
 
 
@@ -402,18 +437,15 @@ def header_lines(hist, cap, crews):
     return lines
 
 
-def run_history(hist):
-    """runs the real objects over the history; returns (driver lines, implementation reply lines,
-    world).  The follow-up day outcomes (decided by the real crew logic) become inputs of the model.
-    If the real code raises or exits, the history stops there: the reply of that line is
-    `crash:<exception type>` (the model answers `... err`; never equal)."""
-    w = World(hist)
+def iter_history(hist, props=None):
+    """generator form of `run_history`: builds the real objects, then yields once per simulated day
+    (so that several histories can be interleaved in one process with all their objects alive);
+    the final yield value is (lines, impl, world)."""
+    w = World(hist, props)
     lines = header_lines(hist, w.cap, w.fu_method.get_crew_count())
     impl = ["ok"] * len(lines)
-    w.crash = None
-    w.releases = []
-    w.snaps = []
     sink = io.StringIO()
+    yield None
     for dn, dd in enumerate(hist["days"]):
         for s in dd.get("tag", []):
             w.tagging_survey(s, dn)
@@ -432,14 +464,15 @@ def run_history(hist):
                 for (mi, s, p, q) in hist["days"][dn - rd].get("screen", []):
                     if mi == i:
                         rel.append({"day": dn, "method": i, "site": s, "rate": Fraction(p, q), "dc": dn - rd,
-                                    "tag": d2i(w.sites[s]._latest), "pre": w.site_plans(i, s)})
+                                    "tag": w.d2i(w.sites[s]._latest), "pre": w.site_plans(i, s)})
             try:
                 with contextlib.redirect_stdout(sink), contextlib.redirect_stderr(sink):
                     nf = w.screen_and_update(i, dn, screens)
             except (Exception, SystemExit) as e:  # noqa: BLE001
                 w.crash = {"day": dn, "method": i, "type": type(e).__name__, "msg": str(e)[:200]}
                 impl.append("crash:" + type(e).__name__)
-                return lines, impl, w
+                yield (lines, impl, w)
+                return
             for r in rel:
                 r["post"] = w.site_plans(i, r["site"])
             w.releases += rel
@@ -454,19 +487,53 @@ def run_history(hist):
             w.crash = {"day": dn, "method": "FU", "type": type(e).__name__, "msg": str(e)[:200]}
             lines.append("fuday %d []" % dn)
             impl.append("crash:" + type(e).__name__)
-            return lines, impl, w
-        lines.append("fuday %d [%s]" % (dn, ",".join("[%s,%d]" % (sid[1:], "cpu".index(o)) for sid, o in out)))
+            yield (lines, impl, w)
+            return
+        lines.append("fuday %d [%s]" % (dn, ",".join("[%d,%d]" % (si, "cpu".index(o)) for si, o in out)))
         w.snaps.append({"day": dn, "op": "fuday", "queue": w.queue_in_pop_order(), "inq": w.inq_bits(),
                         "creators": w.queue_creators(),
                         "pools": [w.method_state(k) for k in range(len(w.methods))]})
         impl.append("ok " + w.dump())
+        yield None
     # the model's ghost flag events / visits against what the real objects were seen doing
     for i in range(len(w.methods)):
         lines.append("evs %d" % i)
         impl.append(w.flag_events(i))
     lines.append("visits")
     impl.append(w.visit_events())
-    return lines, impl, w
+    yield (lines, impl, w)
+
+
+def run_history(hist, props=None):
+    """runs the real objects over the history; returns (driver lines, implementation reply lines,
+    world).  The follow-up day outcomes (decided by the real crew logic) become inputs of the model.
+    If the real code raises or exits, the history stops there: the reply of that line is
+    `crash:<exception type>` (the model answers `... err`; never equal)."""
+    out = None
+    for out in iter_history(hist, props):
+        pass
+    return out
+
+
+def run_interleaved(hists, props_list=None):
+    """all histories in ONE process with all their real objects alive at the same time, advanced one
+    simulated day at a time in round-robin order; returns the list of (lines, impl, world)"""
+    gens = [iter_history(h, None if props_list is None else props_list[k]) for k, h in enumerate(hists)]
+    res = [None] * len(gens)
+    live = list(range(len(gens)))
+    while live:
+        nxt = []
+        for k in live:
+            try:
+                v = next(gens[k])
+            except StopIteration:
+                continue
+            if v is not None:
+                res[k] = v
+            else:
+                nxt.append(k)
+        live = nxt
+    return res
 
 
 def binding_check():
@@ -476,7 +543,7 @@ def binding_check():
     from programs.program import Program
 
     names = ["M0", "FU", "FU_other"]
-    sites = [StubSite(i, names, 120) for i in range(2)]
+    sites = [StubSite("s%d" % i, names, 120) for i in range(2)]
     end = SIM_START + timedelta(days=10)
     sink = io.StringIO()
     with contextlib.redirect_stdout(sink):
@@ -504,7 +571,7 @@ def proportion_grid(cells):
     from scheduling.follow_up_survey_planner import FollowUpSurveyPlanner
 
     names = ["M0", "FU"]
-    site = StubSite(0, names, 120)
+    site = StubSite("s0", names, 120)
     end = SIM_START + timedelta(days=10)
     sink = io.StringIO()
     with contextlib.redirect_stdout(sink):
